@@ -111,9 +111,7 @@ Proof.
   { destruct (f_cont f y) as [p|]; simpl in *.
     - exact Hok.
     - destruct fr; simpl in *; auto.
-      + subst. rewrite Hok. reflexivity.
-      + rewrite forallb_forall in *. intros p Hp. specialize (Hok p Hp). unfold setting_ok in Hok.
-        apply andb_prop in Hok. apply Hok. }
+      subst. rewrite Hok. reflexivity. }
   rewrite OK. cbn [negb].
   destruct fr; try (destruct eh; discriminate); try discriminate.
   - pose proof (split_data_total (S (length d)) (f_maxf f (other y)) s es d Hm (Nat.lt_succ_diag_r _)) as Ht.
